@@ -11,43 +11,123 @@ HTTP = 'the `http` crate (Method, Version, StatusCode, HeaderName/Value, HeaderM
 HTTPARSE = 'httparse::Response/Request::parse is an assumed contract (DESIGN.md 5.2); what httparse accepts is not verified'
 STR = 'core::str::from_utf8, str::trim, usize::from_str_radix, str::parse::<u64>, HeaderValue::to_str are assumed contracts over uninterpreted/explicit byte specs'
 
+
+ITER = 'iterator-adapter pipelines of hoot (AmendedRequest::headers / headers_len, HeaderIterExt::has, split/trim/any over Transfer-Encoding, headers_get_all(..).count()/filter_map/any) are replaced by stubs with assumed contracts (rule N9) and exercised by the bounded native run only'
+URL = 'url::Url::parse / join (RFC 3986 resolution) and Uri parsing are uninterpreted functions (preamble/30_url.rs)'
+PRE = 'documented call-order preconditions: try_read_100 only while still awaiting, Flow<RecvResponse>::try_response not called again after it returned the final response, at most 61 caller-added headers, the request can name its host (absolute URI or Host header)'
+LIT = 'facts about string literals (axiom_literals*, e.g. lower("Host") == "host") are trusted axioms'
+
+M_BODYW = ['util', 'body', 'client::call', 'client::flow']
+M_BODYR = ['util', 'chunk', 'body', 'client::call', 'client::flow']
+M_HEAD = ['util', 'body', 'ext', 'client::amended', 'client::call', 'client::flow']
+
 PROPS = {
+    'C01': {
+        'modules': ['util', 'chunk', 'body', 'parser', 'client::call', 'client::flow', 'lemmas'],
+        'explanation': 'Corollary of the step contracts: every resumable step is verified against a schedule-free spec function of its own resumable state (head_step for the head writer: remaining-head == emitted ++ remaining-head\'; post_write_body for body writes; exact-mapping contracts for the head parsers; min3 / passthrough copies for the readers), so two schedules cannot disagree; composition lemmas in module `lemmas` (head, Content-Length body, close-reason trace) are proved by induction over arbitrary call lists; read-only queries are proved to leave the flow unchanged. NOT proved: the whole-coding composition for chunked response bodies (see C07) and anything about what httparse accepts.',
+        'assumptions': [VERUS, USIZE, WRITER_MODEL, FMT, HTTP, HTTPARSE, ITER, PRE],
+        'bounded': ['chunked response body composition (shared with C07)'],
+    },
+    'C02': {
+        'modules': M_HEAD,
+        'explanation': 'do_write_send_line / do_write_headers / try_write_prelude_part / try_write_prelude / Call::write / Flow<SendRequest>::write extracted verbatim and verified: each call appends whole lines only, exactly the next lines of spec_head (head_step: remaining == emitted ++ remaining\'), stops only when the next line does not fit (maximal), fails with OutputOverflow iff not even the next line fits and then nothing changes, emits nothing once complete; request line from the EFFECTIVE uri; analyze_request verified to append Host (from the effective uri) exactly when absent and exactly the framing header matching the body writer mode.',
+        'assumptions': [VERUS, USIZE, WRITER_MODEL, FMT, HTTP, ITER, LIT, PRE],
+        'bounded': ['AmendedRequest::headers()/headers_len() against eff_headers = added ++ (original minus unset): native exhaustive run'],
+    },
     'C03': {
-        'modules': ['util', 'body'],
-        'explanation': 'write_chunk / BodyWriter::{write,finish} extracted verbatim and verified against: every data write appends a sequence of complete non-empty chunks whose data equals the consumed input (existential witness built as ghost state in the loop); the terminator is emitted only by an empty write, at most once, and ended <=> terminator completely emitted; guards in Call<WithBody>::write (refusal after finish) and Flow<SendBody> transport it.',
+        'modules': M_BODYW,
+        'explanation': 'write_chunk / BodyWriter::{write,finish} extracted verbatim and verified against: every data write appends a sequence of complete non-empty chunks whose data equals the consumed input (existential witness built as ghost state in the loop); the terminator is emitted only by an empty write, at most once, and ended <=> terminator completely emitted; Call<WithBody>::write refuses data after finish without any effect; Flow<SendBody>::{write,can_proceed} transport it.',
         'assumptions': [VERUS, USIZE, WRITER_MODEL, FMT, 'byte-string literal b"0\\r\\n\\r\\n" denotes its bytes (N14)'],
     },
     'C04': {
-        'modules': ['util', 'body'],
-        'explanation': 'Sized branch of BodyWriter::write verified against min(input, space, remaining) copy-through with exact countdown; consume_direct_write accounting; refusal guards in Call<WithBody>::write.',
+        'modules': M_BODYW,
+        'explanation': 'Sized branch of BodyWriter::write verified against min(input, space, remaining) copy-through with exact countdown; consume_direct_write accounting at both layers; Call<WithBody>::write refuses overshoot and writes after the end with *final == *old; finished flag <=> remaining == 0 after a write.',
         'assumptions': [VERUS, USIZE, WRITER_MODEL],
     },
+    'C05': {
+        'modules': ['parser', 'client::call', 'client::flow'],
+        'explanation': 'try_parse_response is an exact function of the httparse outcome; Call<RecvResponse>::try_response: Complete(n) -> exactly n consumed and a response carrying exactly the parsed version/status/fields, Partial -> need-more-data with no state change and never an error for well-formed prefixes, TooManyHeaders at 128; Flow::try_response transports it. The partial-redirect work-around is a KNOWN FINDING (KF2): its obligation is split off and listed.',
+        'assumptions': [VERUS, HTTP, HTTPARSE, LIT, PRE],
+        'bounded': ['httparse conformance on generated heads x every prefix'],
+    },
+    'C06': {
+        'modules': M_BODYR,
+        'explanation': 'BodyReader::for_response / header_defined extracted verbatim and verified against the spec function `framing` written from the property (RFC 9112 6.3) for every method, every u16 status, both versions and every header situation; Call::try_response sets the reader from the response\'s own first textual Content-Length / Transfer-Encoding; need_response_body / into_body / Flow<RecvResponse>::proceed select body / redirect / cleanup exactly by the rule.',
+        'assumptions': [VERUS, HTTP, STR, 'te_declares_chunked(value) (the split/trim/any pipeline over the Transfer-Encoding value, rule N9) is uninterpreted', LIT],
+        'bounded': ['Transfer-Encoding list expression: native exhaustive run over the C06 menu'],
+    },
+    'C07': {
+        'modules': M_BODYR,
+        'explanation': 'all of chunk.rs and BodyReader::read_chunked verified: each state handler step-exact against the chunked grammar token it consumes (size line incl. extension and hex value, data copy = min of three, CRLF, trailer line, final CRLF); parse_input / read_chunked: counts in bounds, produced bytes are a subsequence in order of the consumed ones, one call of parse_input (and one read with boundary stopping) produces ONE contiguous piece of the input (never data of two chunks), an ended decoder consumes nothing, termination, decoder state well-formed even after an error. NOT proved: the composition lemma over a whole coding witness (total output == payload, total consumed == |coding|).',
+        'assumptions': [VERUS, USIZE, STR, 'Iterator::position / take (rule N9 stubs slice_position, slice_take_position)'],
+        'bounded': ['whole-coding composition (payload equality, exact consumption, ended-iff): native small-scope grammar run'],
+    },
+    'C08': {
+        'modules': M_BODYR,
+        'explanation': 'read_limit: exactly min(input, space, remaining) bytes copied unchanged, countdown exact, rest of the output untouched; read_unlimit: min(input, space) passthrough; is_ended <=> remaining == 0 / never for close-delimited; Flow<RecvBody>::can_proceed true for close-delimited at any time; Flow<RecvResponse>::proceed appends CloseDelimitedBody exactly for a close-delimited body.',
+        'assumptions': [VERUS, USIZE],
+    },
+    'C09': {
+        'modules': ['client::holder', 'client::call', 'client::flow'],
+        'explanation': 'typestate invariants wf_prepare / wf_sending / wf_await100 / wf_send_body / wf_recv_response / wf_received / wf_redirect on Inner; every public method of every Flow state requires the invariant of its state and re-establishes it (or the invariant of the successor state) => by induction all call histories; every unreachable!(), unwrap() and holder accessor is proved safe from the invariant; can_proceed() == (proceed() returns Some) in every state; successor variant == the documented graph. KNOWN FINDING KF1: a second as_new_flow() on a second-hop redirect flow panics.',
+        'assumptions': [VERUS, HTTP, PRE, ITER],
+    },
+    'C10': {
+        'modules': ['ext', 'util', 'client::flow'],
+        'explanation': 'append-or-frame postcondition on every function of flow.rs: Flow::new records Http10 / ClientConnectionClose exactly, try_read_100 appends Not100Continue exactly on a non-100 decision, try_response appends ServerConnectionClose iff the returned response has connection: close, RecvResponse::proceed appends CloseDelimitedBody iff a close-delimited body follows, everything else leaves the list unchanged; must_close_connection == list non-empty and close_reason explains list[0], identically in Redirect and Cleanup; capacity 5 proved sufficient from the per-state bounds; lemma_close_trace composes them.',
+        'assumptions': [VERUS, HTTP, 'HeaderIterExt::has = exists field with that name (case-insensitive) and exactly that value (N9 stub headers_has)', LIT, PRE],
+        'bounded': ['headers_has against http::HeaderMap: native run'],
+    },
+    'C11': {
+        'modules': ['parser', 'client::call', 'client::flow'],
+        'explanation': 'Flow<Await100>::try_read_100 verified exactly against the zero-capacity httparse outcome: Partial -> nothing decided/consumed; complete bare 100 -> consumed exactly, body still due; other status or any fields -> nothing consumed, body never sent, Not100Continue recorded; Await100::proceed -> SendBody iff body still due, else a RecvResponse flow whose held call was converted (wf_recv_response); late 100 skipped exactly once in Flow<RecvResponse>::try_response; a 100 does not set the body reader.',
+        'assumptions': [VERUS, HTTP, HTTPARSE, PRE],
+        'bounded': ['httparse conformance (shared with C05)'],
+    },
+    'C12': {
+        'modules': ['util', 'chunk', 'body', 'parser', 'client::call', 'client::flow'],
+        'explanation': 'panic-freedom (index, slice, overflow, unwrap/expect, unreachable!, assert!, ArrayVec::push capacity) of every server-facing function with NO precondition on the byte arguments; counts within bounds; produced bytes are a subsequence in order of consumed ones; errors leave the state unchanged (and the chunk decoder well-formed); termination by decreases clauses.',
+        'assumptions': [VERUS, USIZE, HTTP, HTTPARSE, STR, PRE],
+    },
+    'C13': {
+        'modules': ['client::amended', 'client::flow'],
+        'explanation': 'Flow<Redirect>::as_new_flow verified: the next request is rebuilt from the ORIGINAL request (headers, version, original uri), nothing caller-added is carried over, unset list == [authorization unless may_keep_auth(policy, ORIGINAL uri, target)] ++ [cookie, content-length, host]; can_redirect_auth_header verified == same host && (same scheme || target https); with eff_headers = added ++ (original minus unset) this gives the wire statement at every hop (the contract is universally quantified over the flow it is called on).',
+        'assumptions': [VERUS, HTTP, URL, ITER, LIT, 'Option<&str>/Option<&Scheme> equality stubs (N9)'],
+        'bounded': ['AmendedRequest::headers() (shared with C02)'],
+    },
+    'C14': {
+        'modules': ['client::amended', 'client::call', 'client::flow'],
+        'explanation': 'Flow::try_response stores the LAST Location value; as_new_flow resolves it with new_uri_from_location against the CURRENT effective uri (override wins) and installs the result as override; errors (missing / non-text / unresolvable / unparsable) are Err without state change, never a panic; prelude() takes path-and-query from the effective uri; analyze_request derives Host from the effective uri, the inherited Host is always unset.',
+        'assumptions': [VERUS, HTTP, URL, LIT],
+        'bounded': ['url / Uri conformance on the Location menu'],
+    },
+    'C15': {
+        'modules': ['ext', 'client::flow'],
+        'explanation': 'as_new_flow verified against the spec function redirect_method written from the property for every status and every method incl. extension methods; is_redirect_retaining_status == 307|308; Inner::is_redirect == 3xx && != 304; Redirect state entered exactly then (both proceed functions) and status() reports it.',
+        'assumptions': [VERUS, HTTP],
+    },
+    'C16': {
+        'modules': ['client::amended', 'client::call', 'client::flow'],
+        'explanation': 'Flow<Prepare>::header appends to the added list (assumed contract of set_header, generic TryFrom signature); as_new_flow yields an empty added list and an unset list that affects only the original headers (spec eff_headers = added ++ (original minus unset)); the proved head writer emits eff_headers in order. The function that decides the property on the wire - the iterator in AmendedRequest::headers() - is outside Verus; its assumed contract is checked by the bounded native run.',
+        'assumptions': [VERUS, HTTP, ITER, WRITER_MODEL, FMT],
+        'bounded': ['AmendedRequest::headers()/headers_len(): native exhaustive run (<= 3 added x <= 3 original over the name menu x unset subsets)'],
+        'level_text': 'proof for the chain (header -> added list -> proved head writer) + BOUNDED component for AmendedRequest::headers(); ',
+    },
+    'C17': {
+        'modules': ['ext', 'client::amended', 'client::call', 'client::flow'],
+        'explanation': 'verify_version verified == spec_verify_version; AmendedRequest::analyze verified == spec_analyze (classes in the documented order, Ok iff no class applies - both directions); analyze_request: on Err *final == *old (not cached); Call::write (both flavours) and Flow<SendRequest>::write: a rejected request leaves flow and output buffer untouched; with_body on a bodiless method = wanted mode chunked => MethodForbidsBody.',
+        'assumptions': [VERUS, HTTP, STR, ITER, LIT],
+        'bounded': ['headers_get_all/headers_get pipelines (shared with C02)'],
+    },
     'C18': {
-        'modules': ['util', 'body'],
-        'explanation': 'calculate_max_input has its closed form as postcondition; BodyWriter::write in chunked mode returns exactly cc(len, avail) (greedy largest-fitting chunks); lemma_max_input_fits proves by induction, for every n and every l <= max_input(n), cc(l, n) == l; lemma_max_input_le_and_monotone gives <= n and monotone.',
+        'modules': M_BODYW,
+        'explanation': 'calculate_max_input has its closed form as postcondition; BodyWriter::write in chunked mode returns exactly cc(len, avail) (greedy largest-fitting chunks); lemma_max_input_fits proves by induction, for every n and every l <= max_input(n), cc(l, n) == l; lemma_max_input_le_and_monotone gives <= n and monotone; Flow<SendBody>::calculate_max_input is the identity for Content-Length bodies and read-only.',
         'assumptions': [VERUS, USIZE, WRITER_MODEL, FMT],
     },
     'C19': {
-        'modules': ['util', 'body'],
-        'explanation': 'max_chunk_data verified to return the largest data length whose chunk fits; lemma_cc_progress (>= 1 byte with >= 6 bytes of room, >= min(len, advertised max)) and lemma_cc_monotone (more input never less progress) over the exact consumed-count postcondition of BodyWriter::write; termination of the chunk loop by decreases.',
+        'modules': M_BODYW,
+        'explanation': 'max_chunk_data verified to return the largest data length whose chunk fits; lemma_cc_progress (>= 1 byte with >= 6 bytes of room, >= min(len, advertised max)) and lemma_cc_monotone (more input never less progress) over the exact consumed-count postcondition of BodyWriter::write; Sized: min3 copy; termination of the chunk loop by decreases.',
         'assumptions': [VERUS, USIZE, WRITER_MODEL, FMT],
-    },
-    'C06': {
-        'modules': ['util', 'chunk', 'body'],
-        'explanation': 'BodyReader::for_response / header_defined extracted verbatim and verified against the spec function `framing` written from the property (RFC 9112 6.3) for every method, every u16 status, both versions and every header situation; body_mode reports the framing.',
-        'assumptions': [VERUS, HTTP, STR, 'te_declares_chunked(value) (the split/trim/any pipeline over the Transfer-Encoding value, rule N9) is uninterpreted', 'the header lookup closure is a deterministic function of the name'],
-        'bounded': ['Transfer-Encoding list expression: native exhaustive run over the C06 menu (replay/tests)'],
-    },
-    'C07': {
-        'modules': ['util', 'chunk', 'body'],
-        'explanation': 'all of chunk.rs and BodyReader::read_chunked verified: each state handler step-exact against the chunked grammar token it consumes (size line incl. extension and hex value, data copy = min of three, CRLF, trailer line, final CRLF); parse_input / read_chunked: counts in bounds, produced bytes are a subsequence in order of the consumed ones, one call of parse_input (and one read with boundary stopping) produces ONE contiguous piece of the input (never data of two chunks), an ended decoder consumes nothing, termination. NOT proved: the composition lemma over a whole coding witness (total output == payload, total consumed == |coding|); see DESIGN.md.',
-        'assumptions': [VERUS, USIZE, STR, 'Iterator::position / take (rule N9 stubs slice_position, slice_take_position)'],
-        'bounded': ['whole-coding composition (payload equality, exact consumption, ended-iff) : native small-scope grammar run'],
-    },
-    'C08': {
-        'modules': ['util', 'chunk', 'body'],
-        'explanation': 'read_limit: exactly min(input, space, remaining) bytes copied unchanged, countdown exact, rest of the output untouched; read_unlimit: min(input, space) passthrough; is_ended <=> remaining == 0 / never for close-delimited.',
-        'assumptions': [VERUS, USIZE],
     },
     'C20': {
         'modules': ['parser'],
